@@ -185,6 +185,26 @@ CONTRACTS = {
             '(ghost_j < self->usedSize && !ENT_EQ(self->table[ghost_j], __CPROVER_old(self->table[ghost_j]))) ==> ((self->table[ghost_j].key ^ self->table[ghost_j].data) == (key ^ self->contemptHash) && spec_rec_depth(self->table[ghost_j].data) == (depth < 0 ? 0 : depth) && spec_rec_type(self->table[ghost_j].data) == type && spec_rec_eval(self->table[ghost_j].data) == evalScore && spec_rec_gen(self->table[ghost_j].data) == self->generation && (spec_rec_busy(self->table[ghost_j].data) != 0) == (busy != 0) && spec_rec_score(self->table[ghost_j].data, ply) == sm->score_)',
         ],
     },
+    # setBusy re-inserts a probed record with the ABDADA busy flag: the re-stored record must mean the same as the probed one
+    # (same score as read at this ply - hence the same mate distance -, type, depth, evaluation, move), for the key insert() derives from
+    # ent.getKey().  (Observation, outside the listed properties: ent.getKey() is the stored key = position key ^ contemptHash and insert()
+    # xors contemptHash again, so with a non-zero Contempt the busy record goes to the bucket of another key; DESIGN 13.9.)
+    'TranspositionTable_setBusy': {
+        'requires': ['__CPROVER_is_fresh(self, sizeof(*self))', 'TT_IDX_INV(self)',
+                     '__CPROVER_is_fresh(self->table, self->usedSize * sizeof(struct TTEntryStorage))',
+                     '__CPROVER_is_fresh(ent, sizeof(*ent))', 'self->generation < 16', 'ghost_j < self->usedSize && ghost_k < self->usedSize',
+                     '0 <= ply && ply <= 700',
+                     # ent is a record as insert() writes them: promotion code of the move below 13, score within the mate range at this ply
+                     '((spec_rec_move(ent->data) >> 12) & 15) < 13', '-SearchConst_MATE0 <= spec_rec_score(ent->data, ply) && spec_rec_score(ent->data, ply) <= SearchConst_MATE0'],
+        'assigns': ['__CPROVER_object_whole(self->table)'],
+        'ensures': [
+            '(ghost_j < self->usedSize && ghost_k < self->usedSize && ghost_j != ghost_k) ==> (ENT_EQ(self->table[ghost_j], __CPROVER_old(self->table[ghost_j])) || ENT_EQ(self->table[ghost_k], __CPROVER_old(self->table[ghost_k])))',
+            '(ghost_j < self->usedSize && !ENT_EQ(self->table[ghost_j], __CPROVER_old(self->table[ghost_j]))) ==> ((self->table[ghost_j].key ^ self->table[ghost_j].data) == (ent->key ^ self->contemptHash)'
+            ' && spec_rec_depth(self->table[ghost_j].data) == spec_rec_depth(ent->data) && spec_rec_type(self->table[ghost_j].data) == spec_rec_type(ent->data)'
+            ' && spec_rec_eval(self->table[ghost_j].data) == spec_rec_eval(ent->data) && spec_rec_busy(self->table[ghost_j].data) != 0'
+            ' && spec_rec_score(self->table[ghost_j].data, ply) == spec_rec_score(ent->data, ply))',
+        ],
+    },
     'TTEntry_setScore': {
         'requires': ['__CPROVER_is_fresh(self, sizeof(*self))', '0 <= ply && ply <= 700',
                      '-SearchConst_MATE0 <= score && score <= SearchConst_MATE0'],
@@ -287,6 +307,7 @@ void h_load(void) { struct TTEntry* e; struct TTEntryStorage* s; TTEntry_load(e,
 void h_probe(void) { struct TranspositionTable* t; U64 key; struct TTEntry* r; HAVOC_GHOSTS; TranspositionTable_probe(t, key, r); CANARY_POINT; }
 void h_insert(void) { struct TranspositionTable* t; U64 key; struct Move* sm; int type, ply, depth, ev; _Bool busy = (nondet_int() != 0); /* a C++ bool is 0 or 1 */ HAVOC_GHOSTS;
     TranspositionTable_insert(t, key, sm, type, ply, depth, ev, busy); CANARY_POINT; }
+void h_setBusy(void) { struct TranspositionTable* t; struct TTEntry* e; int ply; HAVOC_GHOSTS; TranspositionTable_setBusy(t, e, ply); CANARY_POINT; }
 void h_setScore(void) { struct TTEntry* e; int score, ply; HAVOC_GHOSTS; TTEntry_setScore(e, score, ply); CANARY_POINT; }
 void h_getScore(void) { struct TTEntry* e; int ply; TTEntry_getScore(e, ply); CANARY_POINT; }
 void h_isCutOff(void) { struct TTEntry* e; int a, b, ply, d; TTEntry_isCutOff(e, a, b, ply, d); CANARY_POINT; }
@@ -369,6 +390,7 @@ GROUPS = [
     Group('store', 'h_store', enforce='TTEntry_store', min_props=3),
     Group('load', 'h_load', enforce='TTEntry_load', min_props=3),
     Group('probe', 'h_probe', enforce='TranspositionTable_probe', replace=('TTEntry_load', 'TTEntry_store', 'TranspositionTable_getIndex'), min_props=10),
+    Group('setBusy', 'h_setBusy', enforce='TranspositionTable_setBusy', replace=('TranspositionTable_insert', 'TTEntry_getScore'), min_props=5, timeout=900),
     Group('insert', 'h_insert', enforce='TranspositionTable_insert', replace=('TTEntry_load', 'TTEntry_store', 'TTEntry_setScore', 'TTEntry_getScore', 'TranspositionTable_getIndex'), min_props=10, timeout=900),
     Group('setScore', 'h_setScore', enforce='TTEntry_setScore', min_props=5),
     Group('getScore', 'h_getScore', enforce='TTEntry_getScore', min_props=3),
@@ -384,10 +406,10 @@ GROUPS = [
     Group('lemma_tbregion', 'h_lemma_tbregion', replace=('TranspositionTable_byteSize',), min_props=3),
 ]
 PROPERTIES = {
-    'C08': ['setUsedSize', 'getIndex', 'store', 'load', 'probe', 'insert', 'setScore', 'getScore', 'getByte', 'putByte',
+    'C08': ['setUsedSize', 'getIndex', 'store', 'load', 'probe', 'insert', 'setBusy', 'setScore', 'getScore', 'getByte', 'putByte',
             'byteSize', 'resize', 'lemma_torn', 'lemma_fields', 'lemma_tbregion', 'updateTB', 'clear_head'],
     'C12': ['updateTB', 'clear_head', 'lemma_tbregion', 'setUsedSize'],
-    'C04': ['setScore', 'getScore', 'isCutOff'],
+    'C04': ['setScore', 'getScore', 'isCutOff', 'setBusy'],
 }
 
 MUTANTS = [
